@@ -306,6 +306,18 @@ def check_helpers(case, ctx):
               what='helper-inverse')
     pw2 = compatibility.combine_ctrlpts_weights(p2, w2)
     ctx.check(close(pw2, pw), 'helper/combine-not-inverse', 'combine(separate(Pw)) != Pw', what='helper-inverse')
+    # (fifth hunt) a weight vector of another length than the points: whatever comes back is separated into what went in - or nothing comes back
+    if n >= 2:
+        ctx.tag('helper:combine-lengths-differ')
+        for Pm, Wm in ((P, W[:-1]), (P[:-1], W)):
+            try:
+                pwm = compatibility.combine_ctrlpts_weights(copy.deepcopy(Pm), list(Wm))
+            except Exception:
+                ctx.ok('helper-inverse')
+                continue
+            pm2, wm2 = compatibility.separate_ctrlpts_weights(pwm)
+            ctx.check(len(pm2) == len(Pm) and len(wm2) == len(Wm), 'helper/combine-truncates', 'combine_ctrlpts_weights(%d points, %d weights) returns '
+                      '%d weighted points without an error: separate(combine(P, W)) != (P, W)' % (len(Pm), len(Wm), len(pwm)), what='helper-inverse')
     ones = compatibility.combine_ctrlpts_weights(copy.deepcopy(P))
     ctx.check(close(ones, [p + [1.0] for p in P]), 'helper/combine-default', 'combine_ctrlpts_weights(P) must append unit weights',
               what='helper-inverse')
